@@ -497,6 +497,95 @@ fn check_overlap(c: &OverlapCase, ctx: &Ctx) -> Outcome {
     }
 }
 
+// ---- ska build --min-count auto (a coverage fit per read pair runs before the build) ----
+
+#[derive(Clone, Debug, Serialize, Deserialize)]
+pub struct AutoCase {
+    pub k: usize,
+    pub n_samples: usize,
+    pub genome_len: usize,
+    pub seed: u64,
+    pub threads: Vec<u8>,
+}
+
+fn auto_strategy() -> BoxedStrategy<AutoCase> {
+    (prop::sample::select(vec![15usize, 21, 31]), 2usize..=3, 2000usize..4000, any::<u64>(), proptest::collection::vec(prop::sample::select(vec![2u8, 4, 8, 16]), 2..=2))
+        .prop_map(|(k, n_samples, genome_len, seed, threads)| AutoCase { k, n_samples, genome_len, seed, threads })
+        .boxed()
+}
+
+fn check_auto(c: &AutoCase, ctx: &Ctx) -> Outcome {
+    let mut x = c.seed | 1;
+    let mut next = move || {
+        x = crate::engine::splitmix64(x);
+        x
+    };
+    let dir = ctx.case_dir();
+    let genome: Vec<u8> = (0..c.genome_len).map(|_| model::BASES[(next() >> 9) as usize % 4]).collect();
+    let mut list = String::new();
+    for j in 0..c.n_samples {
+        // related genomes: a few substitutions per sample; 30x coverage in 100-base reads, 1 % errors, both strands
+        let mut g = genome.clone();
+        for _ in 0..3 {
+            let p = (next() % g.len() as u64) as usize;
+            g[p] = model::BASES[(next() >> 5) as usize % 4];
+        }
+        let n_reads = 30 * g.len() / 100;
+        let (mut f1, mut f2) = (Vec::new(), Vec::new());
+        for i in 0..n_reads {
+            let st = (next() % (g.len() - 100) as u64) as usize;
+            let mut r = g[st..st + 100].to_vec();
+            for b in r.iter_mut() {
+                if next() % 100 == 0 {
+                    *b = model::BASES[(next() >> 5) as usize % 4];
+                }
+            }
+            if next() % 2 == 0 {
+                r = model::revcomp(&r);
+            }
+            let q = vec![b'I'; r.len()];
+            if i % 2 == 0 { f1.push((r, q)) } else { f2.push((r, q)) }
+        }
+        cli::write_fastq(&dir.join(format!("a{j}_1.fastq")), &f1);
+        cli::write_fastq(&dir.join(format!("a{j}_2.fastq")), &f2);
+        list += &format!("{}\ta{j}_1.fastq\ta{j}_2.fastq\n", gen::set_sample_name(j));
+    }
+    std::fs::write(dir.join("auto_list.txt"), list).unwrap();
+    let ks = c.k.to_string();
+    let run = |t: u8, tag: &str| -> Result<Res, Outcome> {
+        let (ts, out) = (t.to_string(), format!("auto_{tag}"));
+        let o = run_ska(ctx, &dir, &["build", "-f", "auto_list.txt", "-o", &out, "-k", &ks, "--min-count", "auto", "--threads", &ts]);
+        if let Some(e) = o.infra() {
+            return Err(Outcome::Infra(e));
+        }
+        if !o.ok() {
+            return Ok(Res::Failed(o.err_tail()));
+        }
+        let t = nk(ctx, &dir, &format!("{out}.skf"))?;
+        let _ = std::fs::remove_file(dir.join(format!("{out}.skf")));
+        Ok(Res::Table(t.table()))
+    };
+    let r: Result<bool, Outcome> = (|| {
+        let base = run(1, "t1")?;
+        for (t, tag) in [(1u8, "t1r".to_string()), (c.threads[0], format!("t{}", c.threads[0])), (c.threads[1], format!("u{}", c.threads[1]))] {
+            let res = run(t, &tag)?;
+            if res != base {
+                if let (Res::Failed(_), Res::Failed(_)) = (&base, &res) {
+                    continue;
+                }
+                return Err(Outcome::Fail(format!("--threads {t} differs from --threads 1:\n  single-threaded: {}\n  this run:        {}", describe_res(&base), describe_res(&res))));
+            }
+        }
+        Ok(matches!(base, Res::Table(_)))
+    })();
+    ctx.done(&dir);
+    match r {
+        Err(Outcome::Fail(m)) => Outcome::Fail(format!("ska build --min-count auto, k={} samples={} genome {} bases seed {} threads={:?}: {m}", c.k, c.n_samples, c.genome_len, c.seed, c.threads)),
+        Err(o) => o,
+        Ok(built) => pass(built, key_of(&(c.k, c.n_samples, c.genome_len, c.seed, &c.threads)), vec![if built { "auto_cutoff_build_succeeds" } else { "auto_cutoff_build_refused_at_every_thread_count" }]),
+    }
+}
+
 // ---- two substitutions closer than 2k in otherwise repeat-free sequence ----
 // The recorded finding F11 concerns inputs with many overlapping differences or repeated (k-1)-mers.
 // A single pair of close substitutions is the simplest overlapping input; there the unchanged tree is
@@ -646,6 +735,7 @@ const RULE: &str = "generated configurations: sample counts {2,5,9,10,29,30,31,4
 fn stages(tier: Tier) -> Vec<Box<dyn Stage>> {
     vec![
         gen_stage_show("pipeline", RULE, tier.pick(320, 4000), 40, case_strategy, check, |c| { let (k, _a, s) = materialise(c); json!({"cmd": format!("{:?}", c.cmd), "k": k, "samples": s.len(), "threads": c.threads, "first_sample": lossy(&s[0].1[0])}) }),
+        gen_stage_show("build_auto", "ska build --min-count auto on 2-3 simulated read pairs (related 2-4 kb genomes, 30x, 100-base reads, 1 % errors, both strands), k in {15,21,31}: --threads 1 twice and two counts from {2,4,8,16}. Oracle: the same table (nk --full-info) as the first single-threaded run; success at one thread implies success at every count. Non-trivial: the single-threaded build succeeds.", tier.pick(16, 240), 6, auto_strategy, check_auto, |c| serde_json::to_value(c).unwrap()),
         gen_stage_show("lo_isolated", "C17's isolated-variant inputs (multi-allelic sites included), ska lo with and without -r, --threads 1 twice and two counts from {2,3,4,8}, one repeated. Oracle: with a reference snps.fas, snps.vcf and pseudo-genomes byte-identical; without, the same column multiset up to complement and the same names; indel records equal as a set after removing strand and REF/ALT presentation. Every case non-trivial.", tier.pick(320, 4000), 40, lo_strategy, check_lo, |c| json!({"k": c.inner.k, "with_ref": c.inner.with_ref, "threads": c.threads, "sites": c.inner.sites.len(), "samples": c.inner.n_samples})),
         gen_stage_show("lo_close_pairs", "exactly two substitutions 1..2k-1 bases apart (every distance, k-1 and k included) in otherwise repeat-free sequence, 3-6 samples with different allele patterns at the two sites, random orientation, k in {9,11,15,17,21,31}; reference-free ska lo six times (--threads 1 three times, two counts from {1,2,4,8}, one repeated). Oracle: same column multiset up to complement and same indel record set in every run (the simplest overlapping inputs; outside the class of the recorded finding, which needs more than two close differences or repeated words). Every case non-trivial.", tier.pick(320, 4000), 40, pair_strategy, check_pair, |c| json!({"k": c.k, "samples": c.n_samples, "distance": 1 + gen::idx(c.dist, 2 * c.k - 1), "threads": c.threads})),
         gen_stage_show("lo_overlapping", "overlapping-variant inputs (random substitutions/indels, close variants): run-to-run differences belong to the recorded finding lo-overlap-hash-order and are counted, not reported (reported as VIOLATION if known-findings.txt does not list it); the exit status must still not depend on the thread count.", tier.pick(160, 2000), 40, overlap_strategy, check_overlap, |c| json!({"k": c.inner.k, "with_ref": c.with_ref, "samples": c.inner.samples.len()})),
